@@ -81,6 +81,18 @@ def transition_points(bits, vmin, vmax, ks):
     return pts
 
 
+def sar_transition_points(bits, vmax, ks):
+    """The SAR converter's own decision points k * vmax / 2^bits (exact for dyadic vmax), +-1 ulp."""
+    pts = []
+    for k in ks:
+        x = vmax * (k / 2 ** bits) if k else 0.0
+        x2 = (vmax * k) / 2 ** bits
+        for v in (x, x2):
+            if math.isfinite(v):
+                pts += [ulp_dn(v), v, ulp_up(v)]
+    return pts
+
+
 def gen_case(r, kind, bits, rng_v, dense=False):
     vmin, vmax = rng_v
     span = vmax - vmin
@@ -90,6 +102,12 @@ def gen_case(r, kind, bits, rng_v, dense=False):
     for _ in range(n_extra):
         ks.add(r.randrange(0, M + 1))
     pts = transition_points(bits, vmin, vmax, sorted(ks))
+    if kind != "simple":
+        sk = {1, 2, 3, 2 ** (bits - 1), 2 ** (bits - 1) + 2 ** (bits - 2), 2 ** bits - 1, 2 ** bits}
+        for _ in range(n_extra + 2):
+            sk.add(r.randrange(1, 2 ** bits + 1))
+            sk.add(2 ** r.randrange(0, bits))           # single-bit codes
+        pts += sar_transition_points(bits, vmax, sorted(sk))
     pts += [vmin, ulp_dn(vmin), ulp_up(vmin), vmax, ulp_dn(vmax), ulp_up(vmax)]
     pts += [-math.inf, math.inf, -1e308, 1e308, 0.0, -0.0, 5e-324, -5e-324]
     if math.isfinite(span):
@@ -102,7 +120,7 @@ def gen_case(r, kind, bits, rng_v, dense=False):
     xs = [struct.unpack(">d", b)[0] for b in pts]
     if kind != "simple" and len(xs) > 16 and not dense:
         # the SAR loop costs `bits` float steps per voltage inside Coq: thin the frame, keep the ends
-        keep = sorted(set([0, 1, len(xs) - 2, len(xs) - 1] + r.sample(range(len(xs)), 12)))
+        keep = sorted(set([0, 1, len(xs) - 2, len(xs) - 1] + r.sample(range(len(xs)), 16)))
         xs = [xs[i] for i in keep]
     return dict(kind=kind, bits=bits, vmin=hexf(vmin), vmax=hexf(vmax), xs=[hexf(x) for x in xs],
                 path=r.choice(["model", "func"]))
@@ -116,13 +134,13 @@ def gen_cases(ctx: Ctx, budget: int):
         cases.append(gen_case(r, "simple", bits, RANGES_FIXED[bits % len(RANGES_FIXED)]))
         cases.append(gen_case(r, "simple", bits, gen_range(r)))
     for bits in range(4, 65):
-        cases.append(gen_case(r, "sar", bits, (0.0, r.choice([1.0, 3.3, 5.0, 10.0, r.uniform(0.1, 20)]))))
-        if bits % 3 == 0:
-            cases.append(gen_case(r, "sar0", bits, (0.0, r.choice([1.0, 5.0, r.uniform(0.1, 20)]))))
+        cases.append(gen_case(r, "sar", bits, (0.0, r.choice([1.0, 8.0, 3.3, 5.0, 10.0, r.uniform(0.1, 20)]))))
+        if bits % 2 == 0:
+            cases.append(gen_case(r, "sar0", bits, (0.0, r.choice([1.0, 4.0, 8.0, 5.0, r.uniform(0.1, 20)]))))
     while len(cases) < budget:
         kind = r.choices(["simple", "sar", "sar0"], [6, 2, 1])[0]
         bits = r.randrange(4, 65)
-        rv = gen_range(r) if kind == "simple" else (0.0, r.uniform(0.01, 50.0))
+        rv = gen_range(r) if kind == "simple" else (0.0, r.choice([2.0, 8.0, 0.5, r.uniform(0.01, 50.0)]))
         cases.append(gen_case(r, kind, bits, rv))
     return cases
 
